@@ -120,7 +120,7 @@ func c10(c *core.Ctx, r *core.Report) {
 		}
 		r.Analysed("analysis/dataflow." + w.name)
 		n := 0
-		for _, ii := range core.InlinedInstrs(c, fn, 3, func(ins ssa.Instruction) bool {
+		for _, ii := range core.InlinedInstrs(c, fn, c.Depth(3), func(ins ssa.Instruction) bool {
 			mu, ok := ins.(*ssa.MapUpdate)
 			// only the forward store (value is a slice of EdgeInfo)
 			return ok && mapOwner(mu.Map) != nil && strings.Contains(mu.Map.Type().String(), "[]")
@@ -139,7 +139,7 @@ func c10(c *core.Ctx, r *core.Report) {
 		}
 		// R10.bound: a listed position is only rejected against the table it indexes
 		nb := 0
-		for _, ic := range core.InlinedCompares(c, fn, 3) {
+		for _, ic := range core.InlinedCompares(c, fn, c.Depth(3)) {
 			for side := 0; side < 2; side++ {
 				path, isLen := ic.LenPath(side)
 				if !isLen {
